@@ -270,6 +270,9 @@ var ctLeaf = map[string]bool{
 	"(encoding/binary.bigEndian).Uint16": true, "(encoding/binary.bigEndian).Uint32": true, "(encoding/binary.bigEndian).Uint64": true,
 	"(encoding/binary.littleEndian).PutUint16": true, "(encoding/binary.littleEndian).PutUint32": true, "(encoding/binary.littleEndian).PutUint64": true,
 	"(encoding/binary.littleEndian).Uint16": true, "(encoding/binary.littleEndian).Uint32": true, "(encoding/binary.littleEndian).Uint64": true,
+	// containers and locks that move or guard a pointer without looking at what it points to
+	"(*sync.Pool).Put": true, "(*sync.Pool).Get": true, "(*sync/atomic.Value).Store": true, "(*sync/atomic.Value).Load": true,
+	"(*sync.Mutex).Lock": true, "(*sync.Mutex).Unlock": true, "(*sync.RWMutex).Lock": true, "(*sync.RWMutex).Unlock": true, "(*sync.RWMutex).RLock": true, "(*sync.RWMutex).RUnlock": true,
 }
 
 var declassFns = map[string]bool{"crypto/subtle.ConstantTimeCompare": true, modPath + "/utils.ConstantTimeCmp": true}
@@ -384,7 +387,7 @@ func (t *Taint) analyze(fn *ssa.Function) {
 				continue
 			}
 			nret++
-			for k, rv := range ret.Results {
+			for k, rv := range retVals(ret) {
 				l := s.lab(rv)
 				if sum.ret[k]|l != sum.ret[k] {
 					sum.ret[k] |= l
@@ -418,7 +421,7 @@ func (t *Taint) analyze(fn *ssa.Function) {
 		real := false
 		for _, b := range fn.Blocks {
 			for _, in := range b.Instrs {
-				if ret, ok := in.(*ssa.Return); ok && len(ret.Results) == 1 && !isConst(ret.Results[0]) {
+				if ret, ok := in.(*ssa.Return); ok && len(retVals(ret)) == 1 && !isConst(retVals(ret)[0]) {
 					real = true
 				}
 			}
@@ -628,7 +631,7 @@ func verdictEncoding(x *ssa.If) bool {
 					return false
 				}
 			case *ssa.Return:
-				for _, r := range y.Results {
+				for _, r := range retVals(y) {
 					if !isConst(r) {
 						if ph, ok := r.(*ssa.Phi); ok {
 							okc := true
